@@ -42,6 +42,8 @@ CONTEXTS = [
     ('footnote', '\\footnote{', '}'),
     ('section', '\\section{', '}'),
     ('um', '\\newcommand{\\mq}[1]{<#1>}\\mq{', '}'),
+    # a file read before, which itself loads a package (nested text buffers): the position must still refer to the main text
+    ('after-ltinput', '\\LTinput{ymcnest.tex}\\LTinput{ymcnest2.tex} ', ''),
 ]
 TAILTXT = ' Wtaq Wtbq Wtcq.'
 CONFIGS = {'std': {'pack': '*', 'lang': 'en'}, 'seqs': {'pack': '*', 'lang': 'de', 'seqs': True}}
@@ -78,7 +80,12 @@ class C08:
         'the fault forms are those named in the statement; argument-open faults are placed where no later closing delimiter exists',
         'for open maths the words up to the end of the paragraph may be swallowed, for \\verb the rest of the line',
     ]
-    init_worker = staticmethod(catcheck.init_worker)
+    def init_worker(self):
+        catcheck.init_worker()
+        with open('ymcnest.tex', 'w') as f:
+            f.write('\\usepackage{amsmath}\n\\newcommand{\\nq}{x}\n' + 'padding line\n' * 5)
+        with open('ymcnest2.tex', 'w') as f:
+            f.write('\\LTinput{ymcnest.tex}\n\\usepackage[german]{babel}\n' + 'more padding\n' * 3)
 
     def bounds(self, tier):
         return {'fault_forms': [f[0] for f in FAULTS], 'contexts': [c[0] for c in CONTEXTS], 'tail_characters': '0..16 (top level), {0,3,6,16} (nested)',
